@@ -162,9 +162,18 @@ Record req := { rp : payload; rcached : Z }.
 Definition req_size (w : item -> Z) (sz : sizer) (r : req) : Z :=
   if rcached r =? -1 then payload_size w sz (rp r) else rcached r.
 
-(* split: the loop runs while the CACHED size exceeds maxSize; after the memo update, `if rmSize <= 0 { break }`:
-   when nothing was removed the loop stops, the extracted payload is discarded and the remainder is returned as it
-   is.  [None] = out of fuel. *)
+(* the weight of the first item that has one (0: no such item): LogRecordCount()/SpanCount() > 0 gives 1 for unit
+   weights; xexporterhelper.firstProfileSamples for profiles *)
+Fixpoint first_weight (w : item -> Z) (l : list item) : Z :=
+  match l with
+  | [] => 0
+  | i :: t => if 0 <? w i then w i else first_weight w t
+  end.
+
+(* split (as repaired by ffc8e5fcc): the loop runs while the CACHED size exceeds maxSize.  After the memo update, when
+   nothing was removed (rmSize <= 0): if no item is left the loop stops and the remainder is returned as it is; else
+   the FIRST item is cut out with the count sizer (capacity 1 / the samples of the first profile), the memo is
+   recomputed from the payload, and the cut-out payload is appended like any other.  [None] = out of fuel. *)
 Fixpoint split_loop (fuel : nat) (w : item -> Z) (sz : sizer) (max : Z) (p : payload) (cached : Z) (acc : list req)
   : option (list req) :=
   if cached >? max then
@@ -172,8 +181,26 @@ Fixpoint split_loop (fuel : nat) (w : item -> Z) (sz : sizer) (max : Z) (p : pay
     | O => None
     | S f =>
       let '(d, k, rm) := extract_payload w sz p max in
-      if rm <=? 0 then Some (acc ++ [{| rp := k; rcached := cached - rm |}])
+      if rm <=? 0 then
+        let n := first_weight w (items_of k) in
+        if n =? 0 then Some (acc ++ [{| rp := k; rcached := cached - rm |}])
+        else
+          let '(d1, k1, _) := extract_payload w Items k n in
+          split_loop f w sz max k1 (payload_size w sz k1) (acc ++ [{| rp := d1; rcached := -1 |}])
       else split_loop f w sz max k (cached - rm) (acc ++ [{| rp := d; rcached := -1 |}])
+    end
+  else Some (acc ++ [{| rp := p; rcached := cached |}]).
+
+(* before ffc8e5fcc (documentation only): the loop stopped whenever nothing was removed *)
+Fixpoint split_loop_old (fuel : nat) (w : item -> Z) (sz : sizer) (max : Z) (p : payload) (cached : Z) (acc : list req)
+  : option (list req) :=
+  if cached >? max then
+    match fuel with
+    | O => None
+    | S f =>
+      let '(d, k, rm) := extract_payload w sz p max in
+      if rm <=? 0 then Some (acc ++ [{| rp := k; rcached := cached - rm |}])
+      else split_loop_old f w sz max k (cached - rm) (acc ++ [{| rp := d; rcached := -1 |}])
     end
   else Some (acc ++ [{| rp := p; rcached := cached |}]).
 
@@ -184,14 +211,14 @@ Definition merged (w : item -> Z) (sz : sizer) (a : req) (b : option req) : req 
   | Some b' => {| rp := rp a ++ rp b'; rcached := req_size w sz a + req_size w sz b' |}   (* mergeTo *)
   end.
 
-(* every iteration that continues has lowered the memo by at least 1 and the loop runs only while the memo
-   exceeds max: fuel = (memo - max) + 1 never runs out (Properties.split_terminates) *)
-Definition fuel_of (cached max : Z) : nat := S (Z.to_nat (cached - max)).
+(* an iteration either lowers the memo by at least 1 or cuts out one item and resets the memo to the true size:
+   fuel = (memo - max) + number of items + 1 (Properties.split_terminates says when it never runs out) *)
+Definition fuel_of (cached max : Z) (nitems : nat) : nat := S (Z.to_nat (cached - max) + nitems).
 
 Definition merge_split (w : item -> Z) (sz : sizer) (max : Z) (a : req) (b : option req) : option (list req) :=
   let m := merged w sz a b in
   if max =? 0 then Some [m]
-  else split_loop (fuel_of (req_size w sz m) max) w sz max (rp m) (req_size w sz m) [].
+  else split_loop (fuel_of (req_size w sz m) max (length (items_of (rp m)))) w sz max (rp m) (req_size w sz m) [].
 
 (* observable: every item with its full context *)
 Definition flat_res (r : res) : list (Z * Z * Z) :=
@@ -234,7 +261,19 @@ Definition mpayload_size (sz : sizer) (p : mpayload) : Z :=
    source are NOT copied (F4).  For the empty type the switch has no case: a nil Metric and 0. *)
 Definition nil_metric : metric := {| mid := 0; mkind := 0; mhdr := 0; mdhdr := 0; mpts := [] |}.
 
+(* as repaired by 9e189f99b: the data container of the fragment is itself length-prefixed; MetricSize(m) counts the
+   prefix of an EMPTY container, the capacity also reserves (DeltaSize capacity - capacity) - DeltaSize 0 *)
 Definition extract_metric (sz : sizer) (m : metric) (cap : Z) : metric * metric * Z :=
+  if mkind m =? 0 then (nil_metric, m, 0)
+  else
+    let dest0 := {| mid := 0; mkind := mkind m; mhdr := 0; mdhdr := 0; mpts := [] |} in
+    let capLeft := inner_cap sz cap (metric_size sz dest0) - ((delta sz cap - cap) - delta sz 0) in
+    let '(d, k, rm) := walk sz (point_size sz) None (fun _ => true) (mpts m) capLeft 0 in
+    ({| mid := 0; mkind := mkind m; mhdr := 0; mdhdr := 0; mpts := d |},
+     {| mid := mid m; mkind := mkind m; mhdr := mhdr m; mdhdr := mdhdr m; mpts := k |}, rm).
+
+(* before 9e189f99b (documentation only) *)
+Definition extract_metric_old (sz : sizer) (m : metric) (cap : Z) : metric * metric * Z :=
   if mkind m =? 0 then (nil_metric, m, 0)
   else
     let dest0 := {| mid := 0; mkind := mkind m; mhdr := 0; mdhdr := 0; mpts := [] |} in
@@ -282,7 +321,13 @@ Fixpoint msplit_loop (fuel : nat) (sz : sizer) (max : Z) (p : mpayload) (cached 
     | O => None
     | S f =>
       let '(d, k, rm) := extract_mpayload sz p max in
-      if rm <=? 0 then Some (acc ++ [{| mrp := k; mrcached := cached - rm |}])      (* rmSize <= 0: break *)
+      if rm <=? 0 then                                           (* rmSize <= 0 *)
+        match mpoints_of k with
+        | [] => Some (acc ++ [{| mrp := k; mrcached := cached - rm |}])       (* DataPointCount() == 0: break *)
+        | _ =>
+          let '(d1, k1, _) := extract_mpayload Items k 1 in     (* extractMetrics(req.md, 1, &MetricsCountSizer{}) *)
+          msplit_loop f sz max k1 (mpayload_size sz k1) (acc ++ [{| mrp := d1; mrcached := -1 |}])
+        end
       else msplit_loop f sz max k (cached - rm) (acc ++ [{| mrp := d; mrcached := -1 |}])
     end
   else Some (acc ++ [{| mrp := p; mrcached := cached |}]).
@@ -296,7 +341,7 @@ Definition mmerged (sz : sizer) (a : mreq) (b : option mreq) : mreq :=
 Definition mmerge_split (sz : sizer) (max : Z) (a : mreq) (b : option mreq) : option (list mreq) :=
   let m := mmerged sz a b in
   if max =? 0 then Some [m]
-  else msplit_loop (fuel_of (mreq_size sz m) max) sz max (mrp m) (mreq_size sz m) [].
+  else msplit_loop (fuel_of (mreq_size sz m) max (length (mpoints_of (mrp m)))) sz max (mrp m) (mreq_size sz m) [].
 
 (* observables: full context (id, resource, scope, metric identity, metric type) and the part of it
    that the code does preserve *)
@@ -325,6 +370,8 @@ Section Batcher.
   Variable msplit : R -> option R -> option (list R).
   (* qb.sizer.Sizeof *)
   Variable sizeof : R -> Z.
+  (* Request.ItemsCount() *)
+  Variable icount : R -> Z.
   Variable min_size : Z.
 
   Record bstate := {
@@ -429,8 +476,11 @@ Section Batcher.
       | None => fire st [DReq i] true                  (* the current batch is kept as it is *)
       | Some [] => fire st [DReq i] false
       | Some (r0 :: rest) =>
-        let '(st1, d) := wrap_done st i (S (length rest)) in
-        let cds' := cds ++ [d] in
+        (* 6f74b829b: when the request had to be split and the first result has as many items as the parked batch
+           had, it holds nothing of this request: its done is not attached there and one flush less is counted *)
+        let first_holds_new := Nat.eqb (length rest) 0 || negb (icount r0 =? icount cur) in
+        let '(st1, d) := wrap_done st i (if first_holds_new then S (length rest) else length rest) in
+        let cds' := if first_holds_new then cds ++ [d] else cds in
         let flush_first := (0 <? length rest)%nat || negb (sizeof r0 <? min_size) in
         let st2 := with_cur st1 (if flush_first then None else Some (r0, cds')) in
         let '(rest', st3) := park_last st2 rest d in
@@ -502,6 +552,7 @@ Section ErrSpec.
   Context {R : Type}.
   Variable msplit : R -> option R -> option (list R).
   Variable sizeof : R -> Z.
+  Variable icount : R -> Z.
   Variable min_size : Z.
   Notation bst := (@bstate R).
 
@@ -516,7 +567,7 @@ Section ErrSpec.
      to i returned an error" — computed from the events and the state they meet, never from rc_err / b_fired *)
   Definition estep (x : bst * nat * (nat -> bool)) (e : @bevent R) : bst * nat * (nat -> bool) :=
     let '(st, n, E) := x in
-    (bstep msplit sizeof min_size (st, n) e,
+    (bstep msplit sizeof icount min_size (st, n) e,
      match e with
      | EConsume r => fun i => E i || (Nat.eqb i n && ms_failed st r)
      | EResult b err =>
